@@ -59,6 +59,9 @@ def check_case(res, t, c, sc, label):
                 fol = next(f for f in c.folders if m in f.members)
                 if fol.method[0] == "qtm" and fol.method[1] < 15 and o.kv.get("st") == "11": key = "qtm-small-window-wrap"
                 break
+    ca = [o for o in t.ops if o.name == "cab_close_any"]
+    if ok and ca and ca[0].kv.get("open_handles") not in (None, "0"):
+        ok = False; why = "close() through a member of the set left %s of its data files open: the decompression state of the closed set survives and is used for the next cabinet" % ca[0].kv.get("open_handles")
     if not ok:
         if not res.violation("well-formed cabinet (%s): %s" % (label, why[:300]), sc.text(), key=key): return True
     return ok
@@ -112,6 +115,9 @@ def cab_scenarios(rng, tier):
         sc.op("cab_list", "c0")
         c.exp_order = list(range(len(c.members)))
         for mi in c.exp_order: sc.op("cab_extract", "c0", mi, "out%d" % mi)
+        # the first member once more (the data file read last is now another part than the one closed through), then close() through any member
+        if c.members: sc.op("cab_extract", "c0", 0, "out0"); c.exp_order = c.exp_order + [0]
+        sc.op("cab_close_any", "c%d" % rng.randrange(len(c.parts)))
         out.append((c, sc, "set cuts=%s params=%s" % (c.cuts, params)))
     return out
 
